@@ -252,8 +252,29 @@ def setup():
     return 0
 
 
+def _watchdog(pid, tier):
+    """a check that neither finishes nor fails is an infrastructure failure (exit 2), never a verdict"""
+    import faulthandler
+    import signal
+    limit = int(os.environ.get("VERIF_TIMEOUT", "0") or 0) or (2400 if tier == "quick" else 6 * 3600)
+
+    def on_alarm(signum, frame):
+        sys.stderr.write("infrastructure failure: %s %s did not finish within %d s\n" % (pid, tier, limit))
+        faulthandler.dump_traceback(file=sys.stderr)
+        sys.stderr.flush()
+        print("infrastructure failure: timeout")
+        sys.stdout.flush()
+        os._exit(2)
+    try:
+        signal.signal(signal.SIGALRM, on_alarm)
+        signal.alarm(limit)
+    except (ValueError, OSError):
+        pass
+
+
 def run_check(pid, tier, replay_path=None):
     t0 = time.time()
+    _watchdog(pid, tier)
     seed = int(os.environ.get("VERIF_SEED", "0") or 0)
     os.makedirs(core.WORK, exist_ok=True)
     mod = importlib.import_module("props." + pid.lower())
